@@ -1,6 +1,8 @@
 import FxVerif.Model.C09
 import FxVerif.Model.C09Shape
+import FxVerif.Model.C09Dep
 import FxVerif.Proofs.C09
+import FxVerif.Proofs.C09Ext
 import FxVerif.Gen.C09
 /-!
 # C09 — a precompile call is all-or-nothing across Cosmos state and EVM state
@@ -324,6 +326,211 @@ theorem evm_call_before_keeper_write_is_undone (v : View N) (f t : N → N) :
          .revert 0]] v = (.ok, v, 1000) := by
   simp [runTx, exec, resolve, CallHdr.unfunded, runPre, runClosure, runInner, St.keeper, St.enter, St.transfer, hdr0, okAct, fwdGas,
     keepGas, St.revertTo, undoAll, undo, commit, St.addLogs, RunShape.tidy]
+
+/-! ## round 3 — the two dependencies the frame model stands for, REGENERATED and interpreted
+
+`Gen/C09Dep.lean` carries the statement lists of the ethermint fork's `(*StateDB).ExecuteNativeAction` and of the
+go-ethereum fork's `EVM.Call / CallCode / DelegateCall / StaticCall` as the module cache has them now.  `Model/C09Dep.lean`
+interprets them over the model's StateDB; the theorems below say that the interpretation IS the function `exec` / `runPre`
+are built from, for every closure / callee / state / gas, and that the ORDER of the statements is what the result rests on. -/
+section Dep
+open FxVerif.Gen.C09Dep
+
+/-- `ExecuteNativeAction` as the fork has it now, statement by statement, on ANY closure (keeper writes, EVM calls on the
+same StateDB, logs, in any order; returning nil, an error, or panicking) and ANY StateDB: snapshot the native store; on
+error put it back and return the error; on success push the snapshot on the journal ABOVE everything the closure
+journaled; a panic passes through with neither — exactly `naModel` -/
+theorem native_action_program_as_modelled (clo : St N → Res × St N) (s0 : St N) :
+    runNA nativeActionProg clo s0 = some (naModel clo s0) := by
+  unfold runNA nativeActionProg naModel
+  rcases h : clo s0 with ⟨r, s1⟩
+  cases r <;> simp [execNA, stepNA, h]
+
+/-- … and `naModel` is literally what the frame model's precompile node does around its closure: `runPre` = charge
+`RequiredGas`, the write `Run` makes ahead of the action (if its shape has one), `ExecuteNativeAction`, then what `Run`
+does with the three possible results -/
+theorem runPre_is_fork_native_action (ev : Eval N) (roCtx roCall : Bool) (gas req : Nat) (sh : RunShape) (out : N → N)
+    (inner : List (Nat × List (Prog N))) (act : ActionX N) (s : St N) :
+    runPre ev roCtx roCall gas req sh out inner act s =
+      if gas < req then (.fail, s, 0) else
+      match naModel (runClosure ev roCtx roCall (gas - req) sh inner act) (if sh.outerBefore then s.poke out else s) with
+      | (.ok, s2) => (.ok, if sh.outerAfter then s2.poke out else s2, gas - req)
+      | (.err, s2) => if sh.dropsActionError then (.ok, s2, gas - req) else (.fail, s2, 0)
+      | (.panic, s1) => if sh.recovers then (.fail, s1, 0) else (.abort, s1, 0) := by
+  unfold runPre naModel
+  by_cases hg : gas < req
+  · simp [hg]
+  · simp only [hg, ↓reduceIte]
+    rcases h : runClosure ev roCtx roCall (gas - req) sh inner act (if sh.outerBefore then s.poke out else s) with ⟨r, s1⟩
+    cases r <;> simp
+
+/-- `EVM.Call` as the fork has it now, statement by statement, for ANY callee (precompile or contract code; returning
+normally, REVERTing, failing, or unwinding with a Go panic), header, StateDB and gas: the balance check returns before
+any snapshot with all the gas; Snapshot; value Transfer; run the callee; on error RevertToSnapshot and, unless the error
+is ErrExecutionReverted, burn the gas — exactly `callModel` -/
+theorem evm_call_program_as_modelled (h : CallHdr N) (callee : St N → Outcome × St N × Nat) (s : St N) (gas : Nat) :
+    runCall progCall h callee s gas = some (callModel h callee s gas) := by
+  unfold runCall progCall callModel
+  by_cases hf : h.unfunded s.native
+  · simp [execC, stepC, hf]
+  · rcases hc : callee (s.enter h) with ⟨o, s1, g1⟩
+    cases o <;> simp [execC, stepC, hf, hc]
+
+/-- the same for all FOUR call kinds when no value is attached (`DelegateCall` / `StaticCall` cannot carry one;
+`CallCode` checks the balance but moves nothing) -/
+theorem evm_valueless_call_programs_as_modelled (k : Kind) (h : CallHdr N) (hx : h.xfer = none)
+    (callee : St N → Outcome × St N × Nat) (s : St N) (gas : Nat) :
+    runCall (progOf k) h callee s gas = some (callModel h callee s gas) := by
+  have hf : h.unfunded s.native = false := by simp [CallHdr.unfunded, hx]
+  have he : s.enter h = s := by simp [St.enter, hx]
+  unfold runCall callModel
+  rcases hc : callee s with ⟨o, s1, g1⟩
+  cases k <;> cases o <;>
+    simp [progOf, progCall, progCallCode, progDelegateCall, progStaticCall, execC, stepC, hf, he, hc]
+example : (hdr0 true : CallHdr Nat).xfer = none := rfl
+
+/-- `(*EVM).create` (CREATE / CREATE2: a constructor frame) as the fork has it now: the same discipline as `Call` — balance
+check before any snapshot, Snapshot, endowment Transfer, run the init code, on error RevertToSnapshot and burn the gas unless
+it REVERTed — for ANY init-code program, header, StateDB and gas.  (The creator's nonce bump before the snapshot and the
+new account's nonce / code are EVM-side account state, not part of the model's View; the constructor returns no runtime
+code, so the code-size, 0xEF and deposit checks are vacuous.)  Hence a constructor that calls a precompile is a `call`
+node of the frame model, and every theorem above applies to it -/
+theorem evm_create_program_as_modelled (h : CallHdr N) (callee : St N → Outcome × St N × Nat) (s : St N) (gas : Nat) :
+    runCall progCreate h callee s gas = some (callModel h callee s gas) := by
+  unfold runCall progCreate callModel
+  by_cases hf : h.unfunded s.native
+  · simp [execC, stepC, hf]
+  · rcases hc : callee (s.enter h) with ⟨o, s1, g1⟩
+    cases o <;> simp [execC, stepC, hf, hc]
+
+/-- the frame model's `resolve` = the caller's side (`post`) applied to what `evm.Call` returned -/
+theorem resolve_is_post_of_fork_call (h : CallHdr N) (callee : St N → Outcome × St N × Nat) (s : St N) (keep gas : Nat) :
+    resolve h s.journal.length keep (if h.unfunded s.native then (.revert, s, gas) else callee (s.enter h)) =
+      post h keep (callModel h callee s gas) := by
+  unfold callModel
+  by_cases hf : h.unfunded s.native
+  · have hr := revertTo_of_ext (Ext.refl s)
+    simp [hf, resolve, post, hr]
+  · rcases hc : callee (s.enter h) with ⟨o, s1, g1⟩
+    cases o <;> simp [hf, resolve, post]
+
+/-- hence a CALL-family instruction of the frame model is: the gas / static-context guard, `evm.Call` of the fork on the
+callee program (`callModel`, by `evm_call_program_as_modelled`), the caller's continuation — for every program -/
+theorem exec_call_is_fork_call (fuel : Nat) (ro : Bool) (gas : Nat) (h : CallHdr N) (body rest : List (Prog N)) (s : St N) :
+    exec (fuel + 1) ro gas (.call h body :: rest) s =
+      if gas < h.callc ∨ (ro = true ∧ h.xfer.isSome = true) then (.fail, s, 0) else
+      match post h (keepGas h gas)
+          (callModel h (exec fuel (ro || h.kind == .staticcall) (fwdGas h gas + h.stip) body) s (fwdGas h gas + h.stip)) with
+      | .inl x => exec fuel ro x.2 rest x.1
+      | .inr r => r := by
+  rw [← resolve_is_post_of_fork_call]
+  simp only [exec]
+  split <;> rfl
+
+/-- … and a call to a precompile is `evm.Call` of the fork on `runPre`, i.e. (`runPre_is_fork_native_action`) on
+`RequiredGas` + the method's `Run` around the fork's `ExecuteNativeAction` -/
+theorem exec_pre_is_fork_call (fuel : Nat) (ro : Bool) (gas : Nat) (h : CallHdr N) (req : Nat) (sh : RunShape) (out : N → N)
+    (inner : List (Nat × List (Prog N))) (act : ActionX N) (rest : List (Prog N)) (s : St N) :
+    exec (fuel + 1) ro gas (.pre h req sh out inner act :: rest) s =
+      if gas < h.callc ∨ (ro = true ∧ h.xfer.isSome = true) then (.fail, s, 0) else
+      match post h (keepGas h gas)
+          (callModel h (runPre (exec fuel) ro (h.kind != .call) (fwdGas h gas + h.stip) req sh out inner act) s
+            (fwdGas h gas + h.stip)) with
+      | .inl x => exec fuel ro x.2 rest x.1
+      | .inr r => r := by
+  rw [← resolve_is_post_of_fork_call]
+  simp only [exec]
+  split <;> rfl
+
+/-- the single facts of the StateDB / journal / `runPrecompiledContract` sources the model relies on (Snapshot = journal
+length; journal.Revert newest-first down to the snapshot, then truncation; nativeChange.Revert restores the snapshot;
+Clone / Restore; `Context()` returns the very `s.ctx` native actions run on; Commit writes the native store before the
+dirty EVM storage; Transfer is a native action; AddLog is journaled; RequiredGas is charged before Run) -/
+theorem statedb_facts_as_modelled : stateDBFacts = expectedStateDBFacts := by rfl
+
+/-! ### the order of the statements is what decides (each pair differs from the regenerated program in ONE swap) -/
+
+def journalFirstProg : List NAStep := [.snapshot, .journal, .run, .onErr .restore, .onErr .retErr, .retNil]
+/-- a closure that writes through a keeper (`f`) and THEN makes an EVM call that moves value (`t`, a native action) -/
+def writeThenMove (f t : N → N) : St N → Res × St N := fun s => (.ok, ({ s with native := f s.native } : St N).transfer t)
+
+/-- `s.journal.append(nativeChange{…})` comes AFTER `action(…)` in the fork: the entry of an EVM call made by the closure
+after a keeper write sits below it and, on a revert of the enclosing frame, is undone LAST — the keeper write `f` is put
+back (this is `evm_call_after_keeper_write_survives_caught_revert`, and why `evmAfterWrite` must be a shape condition).
+Were the entry pushed BEFORE the action, the same revert would restore the entry state -/
+theorem journal_entry_order_decides (s0 : St N) (f t : N → N) :
+    (runNA nativeActionProg (writeThenMove f t) s0).map (fun r => (r.2.revertTo s0.journal.length).native) = some (f s0.native) ∧
+    (runNA journalFirstProg (writeThenMove f t) s0).map (fun r => (r.2.revertTo s0.journal.length).native) = some s0.native := by
+  have h2 : s0.journal.length + 1 + 1 - s0.journal.length = 2 := by omega
+  constructor <;>
+  simp [runNA, nativeActionProg, journalFirstProg, execNA, stepNA, writeThenMove, St.transfer, St.revertTo, h2, undoAll, undo]
+
+def returnFirstProg : List NAStep := [.snapshot, .run, .onErr .retErr, .onErr .restore, .journal, .retNil]
+
+/-- `revertNativeStateToSnapshot` comes BEFORE `return err`: a closure that fails after half-writing leaves the entry
+store; with the two statements swapped it would leave whatever the closure wrote -/
+theorem restore_precedes_error_return (clo : St N → Res × St N) (s0 : St N) (he : (clo s0).1 = .err) :
+    (runNA nativeActionProg clo s0).map (fun r => r.2.native) = some s0.native ∧
+    (runNA returnFirstProg clo s0).map (fun r => r.2.native) = some (clo s0).2.native := by
+  rcases h : clo s0 with ⟨r, s1⟩
+  rw [h] at he
+  simp at he
+  subst he
+  constructor <;> simp [runNA, nativeActionProg, returnFirstProg, execNA, stepNA, h]
+example : ((fun (s : St Nat) => (Res.err, { s with native := 7 })) ⟨⟨fun _ => 0, 1, []⟩, []⟩).1 = .err := rfl
+
+def transferFirstProg : List CStep :=
+  [.depthCheck, .fundCheck, .transfer, .snapshot, .runCallee, .onErr .revert, .onErr .burnGasUnlessReverted, .ret]
+def failing : St N → Outcome × St N × Nat := fun s => (.fail, s, 0)
+
+/-- `Snapshot()` comes BEFORE the value `Transfer` in `EVM.Call`: the value of a call whose callee fails goes back to
+the caller; with the two statements swapped the callee's account would keep it -/
+theorem snapshot_precedes_value_transfer (h : CallHdr N) (t : N → N) (hx : h.xfer = some t) (s : St N)
+    (hf : h.funded s.native = true) (gas : Nat) :
+    (runCall progCall h failing s gas).map (fun r => (r.1, r.2.1.native)) = some (.fail, s.native) ∧
+    (runCall transferFirstProg h failing s gas).map (fun r => (r.1, r.2.1.native)) = some (.fail, t s.native) := by
+  have hu : h.unfunded s.native = false := by simp [CallHdr.unfunded, hx, hf]
+  constructor <;>
+  simp [runCall, progCall, transferFirstProg, execC, stepC, failing, hu, St.enter, hx, St.transfer, St.revertTo, undoAll, undo]
+example : ({ (hdr0 true : CallHdr Nat) with xfer := some (· + 1) }).xfer = some (· + 1) ∧
+    ({ (hdr0 true : CallHdr Nat) with xfer := some (· + 1) }).funded 0 = true := ⟨rfl, rfl⟩
+
+end Dep
+
+/-! ## round 3 — what a dropped action error can and cannot break
+
+`dropped_action_error_keeps_frame_without_effects` shows the SUCCESS half failing for a `Run` that loses the error of its
+native action.  The FAILURE half of the property does not need that condition: for every program whose precompile nodes
+have the three other shape conditions (`Restoring`: no keeper write ahead of the action, no `recover()`, no EVM call after
+a keeper write) — action errors dropped or not — the journal discipline holds and a transaction that does not end
+normally commits nothing. -/
+
+/-- `journal_undo` under the weaker shape condition -/
+theorem journal_undo_even_if_action_errors_are_dropped (fuel : Nat) (ro : Bool) (gas : Nat) (p : List (Prog N)) (s : St N)
+    (hr : Restoring p) (hna : (exec fuel ro gas p s).1 ≠ .abort) :
+    (exec fuel ro gas p s).2.1.revertTo s.journal.length = s :=
+  revertTo_of_ext (exec_inv fuel ro gas p s hr hna)
+
+/-- the failure half of `atomicity` under the weaker shape condition: explicit revert, invalid opcode, a failing
+precompile, a panic, or gas running out at ANY point ⇒ native store, EVM storage and logs committed are the initial ones -/
+theorem failed_tx_commits_nothing_even_if_action_errors_are_dropped (fuel gas : Nat) (p : List (Prog N)) (v : View N)
+    (hr : Restoring p) (h : (runTx fuel gas p v).1 ≠ .ok) : (runTx fuel gas p v).2.1 = v := by
+  unfold runTx at h ⊢
+  by_cases hok : (exec fuel false gas p ({ toView := v, journal := [] } : St N)).1 = .ok
+  · simp [hok] at h
+  · by_cases hab : (exec fuel false gas p ({ toView := v, journal := [] } : St N)).1 = .abort
+    · simp [hab]
+    · have hrv := revertTo_of_ext (exec_inv fuel false gas p ({ toView := v, journal := [] } : St N) hr hab)
+      simp only [List.length_nil] at hrv
+      simp [hok, hab, hrv, commit]
+
+/-- every clean program is restoring (so the two theorems above extend `journal_undo` / `atomicity`'s first half) -/
+theorem clean_is_restoring {p : List (Prog N)} (h : Clean p) : Restoring p := restoring_of_cleanProg h
+
+-- non-vacuity: the witness program of `dropped_action_error_keeps_frame_without_effects` is restoring and not clean
+example : Restoring (N := Nat) [.pre (hdr0 false) 0 { RunShape.tidy with dropsActionError := true } id [] (fun _ _ n => (.err, n + 1, []))] :=
+  .pre (by decide) (by simp) .nil
+example : ({ RunShape.tidy with dropsActionError := true } : RunShape).clean = false := by decide
 
 /-! ## programs whose keeper parts never panic (in particular the two-valued actions of the first version of this model) -/
 
